@@ -90,6 +90,8 @@ func c10Shape(d *rules.DNSRewrite) string {
 // in the long form "NOERROR;TYPE;value" (numbers read in base ten; nothing is
 // claimed for a number that is not written as plain decimal digits).
 func c10Echo(v string, d *rules.DNSRewrite) string {
+	// a comma inside a modifier value is written "\," (the rule syntax documents the escape); the value is what is left
+	v = strings.ReplaceAll(v, "\\,", ",")
 	parts := strings.SplitN(v, ";", 3)
 	if len(parts) != 3 || !strings.EqualFold(parts[0], "NOERROR") || d == nil || d.RCode != dns.RcodeSuccess {
 		return ""
